@@ -64,7 +64,14 @@ func (m *mod) text() string {
 		b.WriteString(" }\n")
 	}
 	for i, q := range m.refq {
-		fmt.Fprintf(&b, "  leaf r%s%d { type identityref { base %s; } }\n", m.name, i, q)
+		switch i % 3 {
+		case 1: // through a typedef
+			fmt.Fprintf(&b, "  typedef tr%s%d { type identityref { base %s; } }\n  leaf r%s%d { type tr%s%d; }\n", m.name, i, q, m.name, i, m.name, i)
+		case 2: // through a chain of two typedefs, the leaf inside a container
+			fmt.Fprintf(&b, "  typedef tr%s%d { type identityref { base %s; } }\n  typedef ts%s%d { type tr%s%d; }\n  leaf r%s%d { type ts%s%d; }\n", m.name, i, q, m.name, i, m.name, i, m.name, i, m.name, i)
+		default:
+			fmt.Fprintf(&b, "  leaf r%s%d { type identityref { base %s; } }\n", m.name, i, q)
+		}
 	}
 	b.WriteString("}\n")
 	return b.String()
@@ -392,6 +399,28 @@ func Run(j *job.Job, s *job.Sink) {
 							continue
 						}
 						ib := leaf.Type.IdentityBase
+						if li := e.Identities; true {
+							same := false
+							for _, mm := range ms.Modules {
+								for _, id := range yang.ToEntry(mm).Identities {
+									if id == ib {
+										same = true
+									}
+								}
+							}
+							for _, sm := range ms.SubModules {
+								for _, id := range sm.Identity {
+									if id == ib {
+										same = true
+									}
+								}
+							}
+							_ = li
+							if !same {
+								bad("identityref-not-the-identity-object", "leaf r%s%d: its base is a copy, not the identity %s:%s itself (it cannot see the same list)", m.name, i, want.mod.name, want.name)
+							}
+							s.Count("identityref_checks", 1)
+						}
 						if ownerName(ib) != want.mod.name || ib.Name != want.name {
 							bad("identityref-wrong-base", "leaf r%s%d points at %s:%s, base names %s:%s", m.name, i, ownerName(ib), ib.Name, want.mod.name, want.name)
 						}
